@@ -292,6 +292,7 @@ func checkC01(c *Ctx) {
 	c01FreshBuffer(c)
 	c03QueueAnswered(c)
 	c05Pending(c)
+	c05PendingKey(c)
 }
 
 // ---------------------------------------------------------------- R-id-canon
